@@ -107,8 +107,11 @@ Section EvaluatorsProofs.
   Local Notation nxt := (h_next T).
   Local Notation hupd := (hupd T).
   Local Notation fresh := (fresh T).
-  Local Notation evs := (eval_serial T f sgn infeas).
-  Local Notation job := (job T f sgn infeas).
+  (* this part of the file is about runs WITHOUT transient failures of the objective: the failure tape of
+     the model is the empty one; runs with failures: Section Failures at the end *)
+  Local Notation nof := (fun _ : nat => @None (list T)).
+  Local Notation evs := (eval_serial T f sgn infeas nof).
+  Local Notation job := (job T f sgn infeas nof).
   Local Notation vec := (d_vec T).
   Local Notation kids := (d_children T).
 
@@ -141,7 +144,7 @@ Section EvaluatorsProofs.
       cbn [eval_serial fst] in Hev.
       destruct (d_state T (get h id)) eqn:Est.
       + (* EMPTY: the job runs *)
-        cbn [Evaluators.job] in Hev.
+        cbn [Evaluators.job Evaluators.job_att] in Hev.
         set (h1 := hupd h id (set_eval T (get h id) (f (vec (get h id)))
                      (map SV (sgn (f (vec (get h id)))) ++ [SB (infeas (vec (get h id)))]))) in Hev.
         destruct (IH h1 _ Hnd' _ _ Hev) as (Hn & Ha & Hb & Hc & Hl).
@@ -560,10 +563,10 @@ Section EvaluatorsProofs.
     Qed.
   End Batch.
   (* ---- the two evaluators, one batch ---- *)
-  Local Notation wc_eval := (wc_evaluate T add sub mul abs zero one mone psum m tols f sgn infeas).
-  Local Notation wc_seq := (wc_batches T add sub mul abs zero one mone psum m tols f sgn infeas).
-  Local Notation g_eval := (g_evaluate T add sub div zero delta f sgn infeas).
-  Local Notation g_seq := (g_batches T add sub div zero delta f sgn infeas).
+  Local Notation wc_eval := (wc_evaluate T add sub mul abs zero one mone psum m tols f sgn infeas nof).
+  Local Notation wc_seq := (wc_batches T add sub mul abs zero one mone psum m tols f sgn infeas nof).
+  Local Notation g_eval := (g_evaluate T add sub div zero delta f sgn infeas nof).
+  Local Notation g_seq := (g_batches T add sub div zero delta f sgn infeas nof).
   Local Notation heap_of := (s_heap T).
 
   Definition wc_done := done wcv wc_fin.
@@ -625,23 +628,30 @@ Section EvaluatorsProofs.
     nxt (heap_of s) + length b <= nxt (heap_of s') /\
     (forall j, j < nxt (heap_of s) -> get (heap_of s') j = get (heap_of s) j) /\
     s_inds T s' = [] /\ s_todo T s' = [] /\
-    s_log T s' = s_log T s ++ flat_map (fun v => v :: gcv v) b /\
+    s_log T s' = s_log T s ++ b ++ flat_map gcv b /\
     s_proc T s' = s_proc T s ++ [ids] /\
     Forall2 (g_done (heap_of s')) ids b.
   Proof.
     intros Hi Ht Hnew Hne.
     destruct (new_designs_spec _ _ _ _ Hnew) as (Eids & N1 & O1 & K1).
     set (N0 := nxt (heap_of s)) in *.
-    unfold g_evaluate, with_heap. rewrite Hi, Ht.
-    set (sA := {| s_heap := h1; s_inds := []; s_todo := []; s_log := s_log T s; s_proc := s_proc T s |}).
+    unfold g_evaluate, with_heap. cbn [s_heap s_inds s_todo s_log s_proc].
+    destruct (evs (h1, s_log T s) ids) as [hA logA] eqn:EA.
+    assert (Hnd : NoDup ids) by (rewrite Eids; apply seq_NoDup).
+    destruct (eval_serial_spec _ _ _ Hnd _ _ EA) as (NA & AA & AB & AC & AL).
+    rewrite Hi, Ht.
+    set (sA := {| s_heap := hA; s_inds := []; s_todo := []; s_log := logA; s_proc := s_proc T s |}).
     change (fold_left (g_add T add zero delta) ids sA) with (fold_left (gen_add gcv) ids sA).
     rewrite Eids.
-    assert (HA : forall k, k < length b -> get (heap_of sA) (N0 + k) = base true (nth k b []))
-      by (intros k Hk; apply K1; exact Hk).
+    assert (HA : forall k, k < length b -> get hA (N0 + k) = base false (nth k b [])).
+    { intros k Hk. rewrite AA.
+      - rewrite (K1 k Hk). reflexivity.
+      - rewrite Eids. apply in_seq. lia.
+      - rewrite (K1 k Hk). reflexivity. }
     assert (NA' : nxt (heap_of sA) = N0 + length b) by (cbn; lia).
     set (sB := fold_left (gen_add gcv) (seq N0 (length b)) sA).
     destruct (evs (heap_of sB, s_log T sB) (s_todo T sB)) as [hC logC] eqn:EC.
-    pose proof (run_spec gcv true g_fin sA b N0 eq_refl eq_refl NA' HA hC logC EC) as R.
+    pose proof (run_spec gcv false g_fin sA b N0 eq_refl eq_refl NA' HA hC logC EC) as R.
     cbn zeta in R. fold sB in R. destruct R as (RI & RN & RO & RD & RL & RP).
     unfold g_run. rewrite EC.
     destruct (s_inds T sB) as [|i0 irest] eqn:EI.
@@ -651,8 +661,14 @@ Section EvaluatorsProofs.
         by (intros; apply g_post_fin).
       cbn [s_heap s_inds s_todo s_log s_proc]. repeat split.
       + cbn [s_heap] in RN. lia.
-      + intros j Hj. rewrite RO by exact Hj. cbn [s_heap]. apply O1. exact Hj.
-      + rewrite RL. reflexivity.
+      + intros j Hj. rewrite RO by exact Hj. cbn [s_heap]. rewrite AC.
+        * apply O1. exact Hj.
+        * rewrite Eids. intro Hin. apply in_seq in Hin. lia.
+      + rewrite RL. unfold sA. cbn [s_log app]. rewrite AL. rewrite <- app_assoc. do 2 f_equal.
+        rewrite filter_all.
+        * rewrite Eids. apply map_seq_nth with (d := []). intros k Hk. rewrite (K1 k Hk). reflexivity.
+        * intros x Hx. rewrite Eids in Hx. apply in_seq in Hx.
+          replace x with (N0 + (x - N0)) by lia. rewrite K1 by lia. reflexivity.
       + rewrite RP, RI. reflexivity.
       + exact RD.
   Qed.
@@ -710,7 +726,7 @@ Section EvaluatorsProofs.
     nxt (heap_of s) <= nxt (heap_of s') /\
     (forall j, j < nxt (heap_of s) -> get (heap_of s') j = get (heap_of s) j) /\
     Forall2 (Forall2 (g_done (heap_of s'))) idss bs /\
-    s_log T s' = s_log T s ++ flat_map (flat_map (fun v => v :: gcv v)) bs /\
+    s_log T s' = s_log T s ++ flat_map (fun b => b ++ flat_map gcv b) bs /\
     s_proc T s' = s_proc T s ++ idss /\
     (forall id, In id (concat idss) -> nxt (heap_of s) <= id < nxt (heap_of s')) /\
     NoDup (concat idss).
@@ -816,7 +832,7 @@ Section EvaluatorsProofs.
     wc_fin (set_children T (evald (fresh v)) l) (map (fun w => c0 (f w)) (wcv v)) =
     {| d_vec := v; d_costs := f v ++ [wc_S v];
        d_signed := map SV (sgn (f v)) ++ [SV (wc_S v); SB (infeas v)];
-       d_state := EVALUATED; d_parents := []; d_children := l; d_sens := Some (wc_S v); d_grad := None |}.
+       d_state := EVALUATED; d_parents := []; d_children := l; d_sens := Some (wc_S v); d_grad := None; d_fail := 0 |}.
   Proof.
     intros Hm. unfold wc_fin. cbn [d_costs set_children evald set_eval d_signed d_vec fresh].
     rewrite Hm. assert (E : S m <=? m = false) by (apply Nat.leb_gt; lia). rewrite E.
@@ -964,7 +980,7 @@ Section EvaluatorsProofs.
   (* C14 gradient_budget: the exact log, hence 1 + n calls per design, n of them extra *)
   Theorem g_budget_thm : forall bs, Forall (fun b => b <> []) bs ->
     exists s idss, g_seq init bs = Some (s, idss) /\
-    s_log T s = flat_map (flat_map (fun v => v :: gcv v)) bs /\
+    s_log T s = flat_map (fun b => b ++ flat_map gcv b) bs /\
     forall n, Forall (Forall (fun v => length v = n)) bs ->
               length (s_log T s) = (1 + n) * length (concat bs).
   Proof.
@@ -973,9 +989,9 @@ Section EvaluatorsProofs.
     exists s, idss. split; [exact E|]. cbn [s_log Evaluators.init app] in L. split; [exact L|].
     intros n Hn. rewrite L. clear -Hn. induction bs as [|b bs IH]; [cbn; lia|].
     inversion Hn as [|x l Hb Hbs]; subst. cbn [flat_map concat]. rewrite !app_length, IH by exact Hbs.
-    rewrite (flat_map_length_const (fun v => v :: gcv v) (1 + n)).
+    rewrite (flat_map_length_const gcv n).
     - lia.
-    - intros v Hv. cbn [length]. rewrite gcv_length. rewrite Forall_forall in Hb. rewrite (Hb v Hv). reflexivity.
+    - intros v Hv. rewrite gcv_length. rewrite Forall_forall in Hb. rewrite (Hb v Hv). reflexivity.
   Qed.
 
   Theorem g_no_reprocessing_thm : forall bs, Forall (fun b => b <> []) bs ->
@@ -1098,7 +1114,7 @@ Section EvaluatorsProofs.
   End GenBatch.
   (* ---- building a batch from items ---- *)
   Local Notation item := (item T).
-  Local Notation mkb := (mk_batch T f sgn infeas).
+  Local Notation mkb := (mk_batch T f sgn infeas nof).
 
   Fixpoint pre_vecs (items : list item) : list (list T) :=
     match items with [] => [] | Pre v :: r => v :: pre_vecs r | _ :: r => pre_vecs r end.
@@ -1162,7 +1178,7 @@ Section EvaluatorsProofs.
         * intros x [Ex|Hin]; [subst; left; rewrite N, N1; lia|].
           destruct (B _ Hin) as [Hr|Ho]; [left; lia|right; exact Ho].
       + set (h1 := {| h_next := S (nxt h); h_get := fun j => if j =? nxt h then fresh v else get h j |}) in Hmk.
-        cbn [Evaluators.job] in Hmk.
+        cbn [Evaluators.job Evaluators.job_att] in Hmk.
         assert (G1 : get h1 (nxt h) = fresh v) by (unfold h1; cbn; rewrite Nat.eqb_refl; reflexivity).
         rewrite G1 in Hmk. cbn [d_vec Evaluators.fresh] in Hmk.
         set (h2 := hupd h1 (nxt h) (set_eval T (fresh v) (f v) (map SV (sgn (f v)) ++ [SB (infeas v)]))) in Hmk.
@@ -1478,14 +1494,14 @@ Section EvaluatorsProofs.
   Definition FINw (v : list T) (l : list nat) : design :=
     {| d_vec := v; d_costs := f v ++ [wc_S v];
        d_signed := map SV (sgn (f v)) ++ [SV (wc_S v); SB (infeas v)];
-       d_state := EVALUATED; d_parents := []; d_children := l; d_sens := Some (wc_S v); d_grad := None |}.
+       d_state := EVALUATED; d_parents := []; d_children := l; d_sens := Some (wc_S v); d_grad := None; d_fail := 0 |}.
   Definition topform_w (v : list T) (d : design) : Prop :=
     set_children T d [] = fresh v \/ set_children T d [] = evald (fresh v) \/ set_children T d [] = FINw v [].
 
   Definition g_grad (v : list T) : list T := map (fun w => div (sub (c0 (f w)) (c0 (f v))) delta) (gcv v).
   Definition FINg (v : list T) (l : list nat) : design :=
     {| d_vec := v; d_costs := f v; d_signed := map SV (sgn (f v)) ++ [SB (infeas v)];
-       d_state := EVALUATED; d_parents := []; d_children := l; d_sens := None; d_grad := Some (g_grad v) |}.
+       d_state := EVALUATED; d_parents := []; d_children := l; d_sens := None; d_grad := Some (g_grad v); d_fail := 0 |}.
   Definition topform_g (v : list T) (d : design) : Prop :=
     set_children T d [] = fresh v \/ set_children T d [] = evald (fresh v) \/ set_children T d [] = FINg v [].
 
@@ -1493,7 +1509,7 @@ Section EvaluatorsProofs.
   Definition L_wc (infos : list (bool * list T)) : list (list T) :=
     map snd (filter fst infos) ++ flat_map (fun p : bool * list T => wcv (snd p)) infos.
   Definition L_g (infos : list (bool * list T)) : list (list T) :=
-    flat_map (fun p : bool * list T => (if fst p then [snd p] else []) ++ gcv (snd p)) infos.
+    map snd (filter fst infos) ++ flat_map (fun p : bool * list T => gcv (snd p)) infos.
 
   Lemma topform_w_vec v d : topform_w v d -> vec d = v.
   Proof. intros [E|[E|E]]; apply (f_equal vec) in E; exact E. Qed.
@@ -1590,6 +1606,14 @@ Section EvaluatorsProofs.
       rewrite RP, RI. reflexivity.
     Qed.
   End WCInst.
+  Lemma topform_g_after_eval v d : topform_g v d -> topform_g v (if is_empty d then evald d else d).
+  Proof.
+    intros Ht. destruct (is_empty d) eqn:Em; [|exact Ht].
+    rewrite <- (is_empty_set_children d []) in Em.
+    destruct Ht as [E|[E|E]]; rewrite E in Em; try discriminate Em.
+    right. left. change (set_children T (evald d) []) with (evald (set_children T d [])). rewrite E. reflexivity.
+  Qed.
+
   Lemma g_ev_spec (s : st) ids : length ids <> 0 ->
     s_inds T s = [] -> s_todo T s = [] -> NoDup ids -> (forall id, In id ids -> id < nxt (s_heap T s)) ->
     (forall id, In id ids -> topform_g (vec (get (s_heap T s) id)) (get (s_heap T s) id)) ->
@@ -1601,11 +1625,25 @@ Section EvaluatorsProofs.
       s_proc T s' = s_proc T s ++ [ids].
   Proof.
     intros Hne Hi Ht Hnd Hlt Htop.
-    unfold g_evaluate.
-    change (fold_left (g_add T add zero delta) ids s) with (fold_left (gen_add gcv) ids s).
-    set (sB := fold_left (gen_add gcv) ids s).
+    set (h := s_heap T s) in *.
+    unfold g_evaluate. fold h.
+    destruct (evs (h, s_log T s) ids) as [hA logA] eqn:EA.
+    destruct (eval_serial_spec _ _ _ Hnd _ _ EA) as (NA & AA & AB & AC & AL).
+    rewrite Hi, Ht.
+    set (sA := {| s_heap := hA; s_inds := []; s_todo := []; s_log := logA; s_proc := s_proc T s |}).
+    change (fold_left (g_add T add zero delta) ids sA) with (fold_left (gen_add gcv) ids sA).
+    assert (GA : forall id, In id ids -> get hA id = (if is_empty (get h id) then evald (get h id) else get h id)).
+    { intros id Hin. destruct (is_empty (get h id)) eqn:Em; [apply AA|apply AB]; assumption. }
+    assert (VA : forall id, In id ids -> vec (get hA id) = vec (get h id)).
+    { intros id Hin. rewrite (GA id Hin). destruct (is_empty (get h id)); reflexivity. }
+    assert (EmA : forall id, In id ids -> is_empty (get hA id) = false).
+    { intros id Hin. rewrite (GA id Hin). destruct (is_empty (get h id)) eqn:Em; [reflexivity|exact Em]. }
+    assert (Hlt' : forall id, In id ids -> id < nxt (s_heap T sA)) by (intros id Hin; cbn; rewrite NA; apply Hlt; exact Hin).
+    assert (Htop' : forall id, In id ids -> topform_g (vec (get (s_heap T sA) id)) (get (s_heap T sA) id)).
+    { intros id Hin. cbn [s_heap sA]. rewrite (VA id Hin), (GA id Hin). apply topform_g_after_eval. apply Htop. exact Hin. }
+    set (sB := fold_left (gen_add gcv) ids sA).
     destruct (evs (s_heap T sB, s_log T sB) (s_todo T sB)) as [hC logC] eqn:EC.
-    pose proof (grun_spec gcv g_fin FINg topform_g g_fin_top s ids Hi Ht Hnd Hlt Htop hC logC EC) as R.
+    pose proof (grun_spec gcv g_fin FINg topform_g g_fin_top sA ids eq_refl eq_refl Hnd Hlt' Htop' hC logC EC) as R.
     cbn zeta in R. fold sB in R. destruct R as (RI & RN & RO & RD & RL & RP).
     unfold g_run. rewrite EC.
     destruct (s_inds T sB) as [|i0 irest] eqn:EI.
@@ -1613,27 +1651,33 @@ Section EvaluatorsProofs.
     - eexists. split; [reflexivity|].
       rewrite (fold_left_ext _ (fun h id => hupd h id (g_fin (get h id) (kid_c0 h (get h id)))))
         by (intros; apply g_post_fin).
-      cbn [s_heap s_inds s_todo s_log s_proc].
-      split; [reflexivity|]. split; [reflexivity|]. split; [exact RN|]. split; [exact RO|]. split.
-      { intros id Hin. destruct (RD id Hin) as (lo & R1 & R2 & R3 & R4). exists lo. repeat split; assumption. }
+      cbn [s_heap s_inds s_todo s_log s_proc]. cbn [s_heap sA] in RN, RO, RD.
+      split; [reflexivity|]. split; [reflexivity|]. split; [lia|]. split.
+      { intros j Hj Hnin. rewrite RO by (try lia; exact Hnin). apply AC. exact Hnin. }
       split.
-      { rewrite RL. f_equal. unfold L_g. rewrite flat_map_map. reflexivity. }
+      { intros id Hin. destruct (RD id Hin) as (lo & R1 & R2 & R3 & R4). rewrite (VA id Hin) in *.
+        exists lo. repeat split; assumption. }
+      split.
+      { rewrite RL. unfold sA. cbn [s_log s_heap]. rewrite AL. unfold L_g. rewrite <- app_assoc. f_equal.
+        rewrite filter_info_vecs. f_equal.
+        rewrite flat_map_map. apply flat_map_ext_in. intros id Hin. cbn [snd].
+        rewrite (EmA id Hin), (VA id Hin). reflexivity. }
       rewrite RP, RI. reflexivity.
   Qed.
 
   (* the model's history functions are the generic one *)
   Lemma wc_hist_gen : forall bs s created,
     gen_hist (fun s ids => Some (wc_eval s ids)) s created bs =
-    Some (wc_hist T add sub mul abs zero one mone psum m tols f sgn infeas s created bs).
+    Some (wc_hist T add sub mul abs zero one mone psum m tols f sgn infeas nof s created bs).
   Proof.
     induction bs as [|b bs IH]; intros s created; [reflexivity|].
     cbn [gen_hist wc_hist]. destruct (mkb (s_heap T s, s_log T s) created b) as [[hl ids] nw].
-    rewrite IH. destruct (wc_hist T add sub mul abs zero one mone psum m tols f sgn infeas
+    rewrite IH. destruct (wc_hist T add sub mul abs zero one mone psum m tols f sgn infeas nof
                                   (wc_eval (with_hl T s hl) ids) (created ++ nw) bs). reflexivity.
   Qed.
 
   Lemma g_hist_gen : forall bs s created,
-    gen_hist g_eval s created bs = g_hist T add sub div zero delta f sgn infeas s created bs.
+    gen_hist g_eval s created bs = g_hist T add sub div zero delta f sgn infeas nof s created bs.
   Proof.
     induction bs as [|b bs IH]; intros s created; [reflexivity|].
     cbn [gen_hist g_hist]. destruct (mkb (s_heap T s, s_log T s) created b) as [[hl ids] nw].
@@ -1707,7 +1751,7 @@ Section EvaluatorsProofs.
   (* C14 worstcase_cost_shape, for histories with resubmitted and pre-evaluated designs *)
   Theorem wc_hist_thm : (forall v, length (f v) = m) -> 1 <= m ->
     forall bs, wf_hist T 0 bs ->
-    forall s idss, wc_hist T add sub mul abs zero one mone psum m tols f sgn infeas init [] bs = (s, idss) ->
+    forall s idss, wc_hist T add sub mul abs zero one mone psum m tols f sgn infeas nof init [] bs = (s, idss) ->
     s_inds T s = [] /\ s_todo T s = [] /\ s_proc T s = idss /\
     s_log T s = hist_log L_wc [] bs /\
     Forall2 (Forall2 (wc_shape (heap_of s))) idss (hist_vecs T [] bs).
@@ -1728,7 +1772,7 @@ Section EvaluatorsProofs.
   Qed.
 
   Theorem g_hist_thm : forall bs, wf_hist T 0 bs -> Forall (fun b => b <> []) bs ->
-    exists s idss, g_hist T add sub div zero delta f sgn infeas init [] bs = Some (s, idss) /\
+    exists s idss, g_hist T add sub div zero delta f sgn infeas nof init [] bs = Some (s, idss) /\
     s_inds T s = [] /\ s_todo T s = [] /\ s_proc T s = idss /\
     s_log T s = hist_log L_g [] bs /\
     Forall2 (Forall2 (g_shape (heap_of s))) idss (hist_vecs T [] bs).
@@ -1772,9 +1816,9 @@ Section EvaluatorsProofs.
   Lemma L_g_length n infos : Forall (fun p : bool * list T => length (snd p) = n) infos ->
     length (L_g infos) = length (filter fst infos) + n * length infos.
   Proof.
-    induction 1 as [|p infos Hp H IH]; [cbn; lia|].
-    unfold L_g in *. cbn [flat_map filter length]. rewrite !app_length, IH, gcv_length, Hp.
-    destruct (fst p); cbn [length]; lia.
+    intros Hn. unfold L_g. rewrite app_length, map_length.
+    rewrite (flat_map_length_const (fun p : bool * list T => gcv (snd p)) n); [reflexivity|].
+    intros p Hp. rewrite gcv_length. rewrite Forall_forall in Hn. apply Hn. exact Hp.
   Qed.
 
   Lemma g_hist_log_length n : forall bs cvecs,
@@ -1789,4 +1833,517 @@ Section EvaluatorsProofs.
     - apply Forall_forall. intros p Hp. apply in_map_iff in Hp. destruct Hp as (it & E & Hit). subst p.
       cbn [snd item_info]. rewrite Forall_forall in Hb. apply Hb. apply in_map. exact Hit.
   Qed.
+
+  (* ================= runs WITH transient failures of the objective =================
+     `fails` is an arbitrary failure tape (by global call number, with the re-drawn vectors); the only
+     assumption is that no job fails five times in a row (the code then raises RuntimeError, C06).
+     d_fail (ghost) counts the failed attempts of Job.evaluate on an individual: d_fail = 0 means "its own
+     evaluation never failed", and then its vector is the one it was created with. *)
+  Section Failures.
+    Variable fails : nat -> option (list T).
+    Hypothesis no5 : forall k, exists j, j < 5 /\ fails (k + j) = None.
+
+    Local Notation evsF := (eval_serial T f sgn infeas fails).
+    Local Notation wc_evalF := (wc_evaluate T add sub mul abs zero one mone psum m tols f sgn infeas fails).
+    Local Notation wc_seqF := (wc_batches T add sub mul abs zero one mone psum m tols f sgn infeas fails).
+    Local Notation g_evalF := (g_evaluate T add sub div zero delta f sgn infeas fails).
+    Local Notation g_seqF := (g_batches T add sub div zero delta f sgn infeas fails).
+
+    (* the individual d after r failed attempts that left it with the vector v *)
+    Definition retried (d : design) (v : list T) (r : nat) : design :=
+      {| d_vec := v; d_costs := d_costs T d; d_signed := d_signed T d; d_state := d_state T d;
+         d_parents := d_parents T d; d_children := kids d; d_sens := d_sens T d; d_grad := d_grad T d;
+         d_fail := d_fail T d + r |}.
+
+    Lemma retried_0 d : retried d (vec d) 0 = d.
+    Proof. destruct d. unfold retried. cbn. rewrite Nat.add_0_r. reflexivity. Qed.
+    Lemma retried_retry d w v r : retried (set_retry T d w) v r = retried d v (S r).
+    Proof. unfold retried, set_retry. cbn. rewrite <- plus_n_Sm. reflexivity. Qed.
+
+    (* Job.evaluate: the retry loop ends with a successful attempt *)
+    Lemma job_att_spec : forall fuel (h : heap) log id,
+      (exists j, j < fuel /\ fails (length log + j) = None) ->
+      forall h' log', job_att T f sgn infeas fails fuel (h, log) id = (h', log') ->
+      exists vf r, nxt h' = nxt h /\ get h' id = evald (retried (get h id) vf r) /\
+        (forall j, j <> id -> get h' j = get h j) /\ (r = 0 -> vf = vec (get h id)) /\
+        length log <= length log'.
+    Proof.
+      induction fuel as [|fuel IH]; intros h log id (j & Hj & Hf) h' log' E; [lia|].
+      cbn [job_att] in E. destruct (fails (length log)) as [w|] eqn:Ek.
+      - assert (Hj0 : j <> 0) by (intro E0; subst j; rewrite Nat.add_0_r in Hf; congruence).
+        set (h1 := hupd h id (set_retry T (get h id) w)) in E.
+        assert (Hex : exists j', j' < fuel /\ fails (length (log ++ [vec (get h id)]) + j') = None).
+        { exists (j - 1). split; [lia|]. rewrite app_length. cbn [length].
+          replace (length log + 1 + (j - 1)) with (length log + j) by lia. exact Hf. }
+        destruct (IH h1 _ id Hex _ _ E) as (vf & r & N & Gd & O & R & L).
+        exists vf, (S r). repeat split.
+        + exact N.
+        + rewrite Gd. unfold h1. rewrite get_hupd_same. rewrite retried_retry. reflexivity.
+        + intros j' Hne. rewrite O by exact Hne. unfold h1. apply get_hupd_other. exact Hne.
+        + discriminate.
+        + rewrite app_length in L. cbn [length] in L. lia.
+      - inversion E; subst. exists (vec (get h id)), 0. repeat split.
+        + rewrite get_hupd_same. rewrite retried_0. reflexivity.
+        + intros j' Hne. apply get_hupd_other. exact Hne.
+        + rewrite app_length. lia.
+    Qed.
+
+    (* Evaluator.evaluate_serial under failures *)
+    Lemma evsF_spec : forall ids (h : heap) log, NoDup ids ->
+      forall h' log', evsF (h, log) ids = (h', log') ->
+      nxt h' = nxt h /\
+      (forall j, In j ids -> is_empty (get h j) = true ->
+         exists vf r, get h' j = evald (retried (get h j) vf r) /\ (r = 0 -> vf = vec (get h j))) /\
+      (forall j, In j ids -> is_empty (get h j) = false -> get h' j = get h j) /\
+      (forall j, ~ In j ids -> get h' j = get h j) /\
+      length log <= length log'.
+    Proof.
+      induction ids as [|id ids IH]; intros h log Hnd h' log' Hev.
+      - cbn in Hev. inversion Hev; subst. repeat split; try reflexivity; try lia; intros j [].
+      - inversion Hnd as [|x l Hnotin Hnd']; subst.
+        cbn [eval_serial fst] in Hev.
+        destruct (d_state T (get h id)) eqn:Est.
+        + destruct (Evaluators.job T f sgn infeas fails (h, log) id) as [h1 log1] eqn:EJ.
+          unfold Evaluators.job in EJ.
+          destruct (job_att_spec 5 h log id (no5 (length log)) _ _ EJ) as (vf & r & N1 & G1 & O1 & R1 & L1).
+          destruct (IH h1 _ Hnd' _ _ Hev) as (Hn & Ha & Hb & Hc & Hl).
+          assert (Hrest : forall j, In j ids -> get h1 j = get h j)
+            by (intros j Hj; apply O1; intro E; subst; exact (Hnotin Hj)).
+          repeat split.
+          * rewrite Hn. exact N1.
+          * intros j [E|Hj] Hemp.
+            -- subst j. exists vf, r. split; [|exact R1]. rewrite (Hc id Hnotin). exact G1.
+            -- rewrite <- (Hrest j Hj) in Hemp. destruct (Ha j Hj Hemp) as (vf' & r' & A1 & A2).
+               rewrite (Hrest j Hj) in A1, A2. exists vf', r'. split; assumption.
+          * intros j [E|Hj] Hemp.
+            -- subst j. unfold is_empty in Hemp. rewrite Est in Hemp. discriminate.
+            -- rewrite <- (Hrest j Hj). apply Hb; [exact Hj|]. rewrite (Hrest j Hj). exact Hemp.
+          * intros j Hj. rewrite Hc by (intro; apply Hj; right; assumption).
+            apply O1. intro E. apply Hj. left. symmetry. exact E.
+          * lia.
+        + destruct (IH h _ Hnd' _ _ Hev) as (Hn & Ha & Hb & Hc & Hl).
+          repeat split.
+          * exact Hn.
+          * intros j [E|Hj] Hemp; [|apply Ha; assumption].
+            subst j. unfold is_empty in Hemp. rewrite Est in Hemp. discriminate.
+          * intros j [E|Hj] Hemp; [|apply Hb; assumption]. subst j. apply Hc. exact Hnotin.
+          * intros j Hj. apply Hc. intro. apply Hj. right. assumption.
+          * exact Hl.
+    Qed.
+
+    Lemma nth_map_seq {A : Type} (g : nat -> A) (d : A) n k : k < n -> nth k (map g (seq 0 n)) d = g k.
+    Proof.
+      intros Hk. rewrite (nth_indep _ d (g 0)) by (rewrite map_length, seq_length; exact Hk).
+      rewrite map_nth, seq_nth by exact Hk. reflexivity.
+    Qed.
+
+    (* a design as evaluate() finds it after the designs of the batch have been evaluated: vector x (its final
+       one), re-drawn rd times *)
+    Definition based (x : list T) (rd : nat) : design := evald (retried (fresh x) x rd).
+
+    Section BatchF.
+      Variable cv : list T -> list (list T).
+      Variable G : design -> list T -> design.
+
+      (* a finished design: post-processed against the costs stored in its children, which sit right above lo;
+         child k was created at cv x [k] and was possibly re-drawn itself *)
+      Definition doneF (h : heap) (id : nat) (x : list T) (rd : nat) : Prop :=
+        exists lo, id < lo /\ lo + length (cv x) <= nxt h /\
+          get h id = G (set_children T (based x rd) (seq lo (length (cv x))))
+                       (map (fun c => c0 (d_costs T (get h c))) (seq lo (length (cv x)))) /\
+          forall k, k < length (cv x) -> exists w r,
+            get h (lo + k) = evald (retried (child_of (nth k (cv x) []) id) w r) /\
+            (r = 0 -> w = nth k (cv x) []).
+
+      Lemma doneF_frame (h h' : heap) id x rd :
+        nxt h <= nxt h' -> (forall j, j < nxt h -> get h' j = get h j) -> doneF h id x rd -> doneF h' id x rd.
+      Proof.
+        intros Hn Hf (lo & A & B & C & D). exists lo. repeat split.
+        - exact A.
+        - lia.
+        - rewrite Hf by lia. rewrite C. f_equal. apply map_ext_in. intros c Hc. apply in_seq in Hc.
+          rewrite Hf by lia. reflexivity.
+        - intros k Hk. destruct (D k Hk) as (w & r & D1 & D2). exists w, r. split; [|exact D2].
+          rewrite Hf by lia. exact D1.
+      Qed.
+
+      Lemma run_specF (sA : st) (xs : list (list T)) (rs : list nat) (N0 : nat) :
+        let hA := s_heap T sA in
+        let ids := seq N0 (length xs) in
+        s_inds T sA = [] -> s_todo T sA = [] -> nxt hA = N0 + length xs ->
+        (forall k, k < length xs -> get hA (N0 + k) = based (nth k xs []) (nth k rs 0)) ->
+        let sB := fold_left (gen_add cv) ids sA in
+        forall hC logC, evsF (s_heap T sB, s_log T sB) (s_todo T sB) = (hC, logC) ->
+        let hD := fold_left (fun h id => hupd h id (G (get h id) (kid_c0 h (get h id)))) (s_inds T sB) hC in
+        s_inds T sB = ids /\
+        nxt hA <= nxt hD /\
+        (forall j, j < N0 -> get hD j = get hA j) /\
+        (forall k, k < length xs -> doneF hD (N0 + k) (nth k xs []) (nth k rs 0)) /\
+        s_proc T sB = s_proc T sA.
+      Proof.
+        intros hA ids Hi Ht NA HA sB hC logC EC hD.
+        set (K := length xs) in *.
+        assert (Hnd : NoDup ids) by apply seq_NoDup.
+        assert (Hlt : forall id, In id ids -> id < nxt (s_heap T sA)).
+        { intros id Hin. apply in_seq in Hin. fold hA. lia. }
+        pose proof (fold_add_spec cv ids sA Hnd Hlt) as HB. cbn zeta in HB. fold sB in HB. fold hA in HB.
+        destruct HB as (NB & OB & PB & IB & TB & DB & XB & LB & RB).
+        set (hB := s_heap T sB) in *.
+        set (blk := fun id => id :: kids (get hB id)) in *.
+        rewrite Hi in IB. rewrite Ht in TB. cbn [app] in IB, TB.
+        assert (TopB : forall k, k < K -> exists lo, N0 + K <= lo /\ lo + length (cv (nth k xs [])) <= nxt hB /\
+                   get hB (N0 + k) = set_children T (based (nth k xs []) (nth k rs 0)) (seq lo (length (cv (nth k xs [])))) /\
+                   forall k', k' < length (cv (nth k xs [])) ->
+                              get hB (lo + k') = child_of (nth k' (cv (nth k xs [])) []) (N0 + k)).
+        { intros k Hk. assert (Hin : In (N0 + k) ids) by (apply in_seq; lia).
+          destruct (PB _ Hin) as (lo & B1 & B2 & B3 & B4).
+          rewrite (HA k Hk) in *. change (vec (based (nth k xs []) (nth k rs 0))) with (nth k xs []) in *.
+          exists lo. repeat split; try assumption. lia. }
+        rewrite TB in EC. rewrite LB in EC.
+        destruct (evsF_spec _ _ _ DB _ _ EC) as (NC & CA & CB & CC & CL).
+        assert (TopC : forall k, k < K -> exists lo, N0 + K <= lo /\ lo + length (cv (nth k xs [])) <= nxt hC /\
+                   get hC (N0 + k) = set_children T (based (nth k xs []) (nth k rs 0)) (seq lo (length (cv (nth k xs [])))) /\
+                   forall k', k' < length (cv (nth k xs [])) -> exists w r,
+                     get hC (lo + k') = evald (retried (child_of (nth k' (cv (nth k xs [])) []) (N0 + k)) w r) /\
+                     (r = 0 -> w = nth k' (cv (nth k xs [])) [])).
+        { intros k Hk. destruct (TopB k Hk) as (lo & B1 & B2 & B3 & B4).
+          assert (Hin : In (N0 + k) ids) by (apply in_seq; lia).
+          assert (Hint : In (N0 + k) (flat_map blk ids)).
+          { apply in_flat_map. exists (N0 + k). split; [exact Hin|left; reflexivity]. }
+          exists lo. repeat split.
+          - exact B1.
+          - rewrite NC. exact B2.
+          - rewrite <- B3. apply CB; [exact Hint|]. rewrite B3. reflexivity.
+          - intros k' Hk'.
+            assert (Hint' : In (lo + k') (flat_map blk ids)).
+            { apply in_flat_map. exists (N0 + k). split; [exact Hin|]. right. unfold blk. rewrite B3. cbn.
+              apply in_seq. lia. }
+            assert (Hemp : is_empty (get hB (lo + k')) = true) by (rewrite (B4 k' Hk'); reflexivity).
+            destruct (CA _ Hint' Hemp) as (w & r & A1 & A2). rewrite (B4 k' Hk') in A1, A2.
+            exists w, r. split; [exact A1|exact A2]. }
+        assert (KidsC : forall id c, In id ids -> In c (kids (get hC id)) -> ~ In c ids).
+        { intros id c Hin Hc Hcin. apply in_seq in Hin. apply in_seq in Hcin.
+          destruct (TopC (id - N0)) as (lo & C1 & C2 & C3 & C4); [lia|].
+          replace (N0 + (id - N0)) with id in C3 by lia. rewrite C3 in Hc. cbn in Hc. apply in_seq in Hc. lia. }
+        pose proof (fold_post_spec G ids hC Hnd KidsC) as HD. cbn zeta in HD.
+        unfold hD. rewrite IB. destruct HD as (ND & DA & DO).
+        set (hD' := fold_left (fun h id => hupd h id (G (get h id) (kid_c0 h (get h id)))) ids hC) in *.
+        repeat split.
+        - rewrite ND, NC. exact NB.
+        - intros j Hj.
+          assert (J1 : ~ In j ids) by (intro Hin; apply in_seq in Hin; lia).
+          rewrite DO by exact J1. rewrite CC.
+          + apply OB; [lia|exact J1].
+          + intro Hin. destruct (XB _ Hin) as [Hin'|Hge]; [exact (J1 Hin')|lia].
+        - intros k Hk.
+          destruct (TopC k Hk) as (lo & C1 & C2 & C3 & C4).
+          assert (Hin : In (N0 + k) ids) by (apply in_seq; lia).
+          assert (Hkid : forall c, In c (seq lo (length (cv (nth k xs [])))) -> get hD' c = get hC c).
+          { intros c Hc. apply in_seq in Hc. apply DO. intro Hin'. apply in_seq in Hin'. lia. }
+          exists lo. repeat split.
+          + lia.
+          + rewrite ND. exact C2.
+          + rewrite (DA _ Hin), C3. f_equal. unfold kid_c0. cbn [d_children set_children].
+            apply map_ext_in. intros c Hc. rewrite (Hkid c Hc). reflexivity.
+          + intros k' Hk'. destruct (C4 k' Hk') as (w & r & A1 & A2). exists w, r. split; [|exact A2].
+            rewrite Hkid by (apply in_seq; lia). exact A1.
+        - exact RB.
+      Qed.
+
+      (* the common part of both evaluate() methods, for a batch of fresh designs *)
+      Lemma batchF_core (s : st) b h1 ids hA logA :
+        s_inds T s = [] -> s_todo T s = [] -> new_designs T (heap_of s) b = (h1, ids) ->
+        evsF (h1, s_log T s) ids = (hA, logA) ->
+        let sA := {| s_heap := hA; s_inds := []; s_todo := []; s_log := logA; s_proc := s_proc T s |} in
+        let sB := fold_left (gen_add cv) ids sA in
+        forall hC logC, evsF (heap_of sB, s_log T sB) (s_todo T sB) = (hC, logC) ->
+        let hD := fold_left (fun h id => hupd h id (G (get h id) (kid_c0 h (get h id)))) (s_inds T sB) hC in
+        ids = seq (nxt (heap_of s)) (length b) /\
+        s_inds T sB = ids /\
+        nxt (heap_of s) + length b <= nxt hD /\
+        (forall j, j < nxt (heap_of s) -> get hD j = get (heap_of s) j) /\
+        s_proc T sB = s_proc T s /\
+        Forall2 (fun id v => exists x rd, (rd = 0 -> x = v) /\ doneF hD id x rd) ids b.
+      Proof.
+        intros Hi Ht Hnew EA sA sB hC logC EC hD.
+        destruct (new_designs_spec _ _ _ _ Hnew) as (Eids & N1 & O1 & K1).
+        set (N0 := nxt (heap_of s)) in *.
+        assert (Hnd : NoDup ids) by (rewrite Eids; apply seq_NoDup).
+        destruct (evsF_spec _ _ _ Hnd _ _ EA) as (NA & AA & AB & AC & AL).
+        set (xs := map (fun k => vec (get hA (N0 + k))) (seq 0 (length b))).
+        set (rs := map (fun k => d_fail T (get hA (N0 + k))) (seq 0 (length b))).
+        assert (Lxs : length xs = length b) by (unfold xs; rewrite map_length, seq_length; reflexivity).
+        assert (Top : forall k, k < length b -> exists vf r, get hA (N0 + k) = based vf r /\ (r = 0 -> vf = nth k b [])).
+        { intros k Hk. assert (Hin : In (N0 + k) ids) by (rewrite Eids; apply in_seq; lia).
+          assert (Hemp : is_empty (get h1 (N0 + k)) = true) by (rewrite (K1 k Hk); reflexivity).
+          destruct (AA _ Hin Hemp) as (vf & r & A1 & A2). rewrite (K1 k Hk) in A1, A2.
+          exists vf, r. split; [exact A1|exact A2]. }
+        assert (HA : forall k, k < length xs -> get hA (N0 + k) = based (nth k xs []) (nth k rs 0)).
+        { intros k Hk. rewrite Lxs in Hk. unfold xs, rs. rewrite !nth_map_seq by exact Hk.
+          destruct (Top k Hk) as (vf & r & A1 & _). rewrite A1. reflexivity. }
+        assert (NA' : nxt (heap_of sA) = N0 + length xs) by (cbn; rewrite Lxs; lia).
+        assert (Eids' : ids = seq N0 (length xs)) by (rewrite Lxs; exact Eids).
+        assert (RR : s_inds T sB = ids /\ nxt hA <= nxt hD /\ (forall j, j < N0 -> get hD j = get hA j) /\
+                     (forall k, k < length xs -> doneF hD (N0 + k) (nth k xs []) (nth k rs 0)) /\
+                     s_proc T sB = s_proc T s).
+        { subst hD sB. revert EC. rewrite Eids'. intros EC.
+          exact (run_specF sA xs rs N0 eq_refl eq_refl NA' HA hC logC EC). }
+        destruct RR as (RI & RN & RO & RD & RP).
+        split; [exact Eids|]. split; [exact RI|]. split; [lia|]. split.
+        { intros j Hj. rewrite RO by exact Hj. rewrite AC.
+          - apply O1. exact Hj.
+          - rewrite Eids. intro Hin. apply in_seq in Hin. lia. }
+        split; [exact RP|].
+        rewrite Eids. apply Forall2_seq_nth with (d := []). intros k Hk.
+        destruct (Top k Hk) as (vf & r & A1 & A2).
+        exists (nth k xs []), (nth k rs 0). split.
+        - unfold xs, rs. rewrite !nth_map_seq by exact Hk. rewrite A1. cbn. exact A2.
+        - apply RD. rewrite Lxs. exact Hk.
+      Qed.
+    End BatchF.
+
+    Definition wc_doneF (h : heap) (id : nat) (v : list T) : Prop :=
+      exists x rd, (rd = 0 -> x = v) /\ doneF wcv wc_fin h id x rd.
+    Definition g_doneF (h : heap) (id : nat) (v : list T) : Prop :=
+      exists x rd, (rd = 0 -> x = v) /\ doneF gcv g_fin h id x rd.
+
+    Lemma wc_batchF_spec (s : st) b h1 ids :
+      s_inds T s = [] -> s_todo T s = [] -> new_designs T (heap_of s) b = (h1, ids) ->
+      let s' := wc_evalF (with_heap T s h1) ids in
+      ids = seq (nxt (heap_of s)) (length b) /\
+      nxt (heap_of s) + length b <= nxt (heap_of s') /\
+      (forall j, j < nxt (heap_of s) -> get (heap_of s') j = get (heap_of s) j) /\
+      s_inds T s' = [] /\ s_todo T s' = [] /\
+      s_proc T s' = s_proc T s ++ [ids] /\
+      Forall2 (wc_doneF (heap_of s')) ids b.
+    Proof.
+      intros Hi Ht Hnew.
+      unfold wc_evaluate, with_heap. cbn [s_heap s_inds s_todo s_log s_proc].
+      destruct (evsF (h1, s_log T s) ids) as [hA logA] eqn:EA.
+      rewrite Hi, Ht.
+      set (sA := {| s_heap := hA; s_inds := []; s_todo := []; s_log := logA; s_proc := s_proc T s |}).
+      change (fold_left (wc_add T add mul zero one mone tols) ids sA) with (fold_left (gen_add wcv) ids sA).
+      unfold wc_run.
+      set (sB := fold_left (gen_add wcv) ids sA).
+      destruct (evsF (heap_of sB, s_log T sB) (s_todo T sB)) as [hC logC] eqn:EC.
+      pose proof (batchF_core wcv wc_fin s b h1 ids hA logA Hi Ht Hnew EA hC logC EC) as R.
+      cbn zeta in R. fold sA in R. fold sB in R. destruct R as (Eids & RI & RN & RO & RP & RD).
+      rewrite (fold_left_ext _ (fun h id => hupd h id (wc_fin (get h id) (kid_c0 h (get h id)))))
+        by (intros; apply wc_post_fin).
+      cbn [s_heap s_inds s_todo s_log s_proc]. repeat split.
+      - exact Eids.
+      - exact RN.
+      - exact RO.
+      - rewrite RP, RI. reflexivity.
+      - exact RD.
+    Qed.
+
+    Lemma g_batchF_spec (s : st) b h1 ids :
+      s_inds T s = [] -> s_todo T s = [] -> new_designs T (heap_of s) b = (h1, ids) -> b <> [] ->
+      exists s', g_evalF (with_heap T s h1) ids = Some s' /\
+      ids = seq (nxt (heap_of s)) (length b) /\
+      nxt (heap_of s) + length b <= nxt (heap_of s') /\
+      (forall j, j < nxt (heap_of s) -> get (heap_of s') j = get (heap_of s) j) /\
+      s_inds T s' = [] /\ s_todo T s' = [] /\
+      s_proc T s' = s_proc T s ++ [ids] /\
+      Forall2 (g_doneF (heap_of s')) ids b.
+    Proof.
+      intros Hi Ht Hnew Hne.
+      unfold g_evaluate, with_heap. cbn [s_heap s_inds s_todo s_log s_proc].
+      destruct (evsF (h1, s_log T s) ids) as [hA logA] eqn:EA.
+      rewrite Hi, Ht.
+      set (sA := {| s_heap := hA; s_inds := []; s_todo := []; s_log := logA; s_proc := s_proc T s |}).
+      change (fold_left (g_add T add zero delta) ids sA) with (fold_left (gen_add gcv) ids sA).
+      set (sB := fold_left (gen_add gcv) ids sA).
+      destruct (evsF (heap_of sB, s_log T sB) (s_todo T sB)) as [hC logC] eqn:EC.
+      pose proof (batchF_core gcv g_fin s b h1 ids hA logA Hi Ht Hnew EA hC logC EC) as R.
+      cbn zeta in R. fold sA in R. fold sB in R. destruct R as (Eids & RI & RN & RO & RP & RD).
+      unfold g_run. rewrite EC.
+      destruct (s_inds T sB) as [|i0 irest] eqn:EI.
+      - exfalso. rewrite Eids in RI. destruct b; [apply Hne; reflexivity|discriminate RI].
+      - eexists. split; [reflexivity|].
+        rewrite (fold_left_ext _ (fun h id => hupd h id (g_fin (get h id) (kid_c0 h (get h id)))))
+          by (intros; apply g_post_fin).
+        cbn [s_heap s_inds s_todo s_log s_proc]. repeat split.
+        + exact Eids.
+        + exact RN.
+        + exact RO.
+        + rewrite RP, RI. reflexivity.
+        + exact RD.
+    Qed.
+
+    Lemma wc_batchesF_spec : forall bs (s : st), s_inds T s = [] -> s_todo T s = [] ->
+      forall s' idss, wc_seqF s bs = (s', idss) ->
+      s_inds T s' = [] /\ s_todo T s' = [] /\
+      nxt (heap_of s) <= nxt (heap_of s') /\
+      (forall j, j < nxt (heap_of s) -> get (heap_of s') j = get (heap_of s) j) /\
+      Forall2 (Forall2 (wc_doneF (heap_of s'))) idss bs /\
+      s_proc T s' = s_proc T s ++ idss.
+    Proof.
+      induction bs as [|b bs IH]; intros s Hi Ht s' idss Hrun.
+      - cbn in Hrun. inversion Hrun; subst. rewrite !app_nil_r. repeat split; auto; try constructor.
+      - cbn [wc_batches] in Hrun.
+        destruct (new_designs T (heap_of s) b) as [h1 ids] eqn:Enew.
+        destruct (wc_seqF (wc_evalF (with_heap T s h1) ids) bs) as [s2 idss2] eqn:Erest.
+        inversion Hrun; subst s2 idss. clear Hrun.
+        pose proof (wc_batchF_spec s b h1 ids Hi Ht Enew) as B. cbn zeta in B.
+        set (s1 := wc_evalF (with_heap T s h1) ids) in *.
+        destruct B as (Eids & BN & BO & BI & BT & BP & BD).
+        destruct (IH s1 BI BT _ _ Erest) as (I2 & T2 & N2 & O2 & D2 & P2).
+        repeat split.
+        + exact I2.
+        + exact T2.
+        + lia.
+        + intros j Hj. rewrite O2 by lia. apply BO. exact Hj.
+        + constructor; [|exact D2].
+          apply (Forall2_impl (wc_doneF (heap_of s1))); [|exact BD].
+          intros id v _ (x & rd & H1 & H2). exists x, rd. split; [exact H1|].
+          apply (doneF_frame wcv wc_fin (heap_of s1)); assumption.
+        + rewrite P2, BP, <- app_assoc. reflexivity.
+    Qed.
+
+    Lemma g_batchesF_spec : forall bs (s : st), s_inds T s = [] -> s_todo T s = [] ->
+      Forall (fun b => b <> []) bs ->
+      exists s' idss, g_seqF s bs = Some (s', idss) /\
+      s_inds T s' = [] /\ s_todo T s' = [] /\
+      nxt (heap_of s) <= nxt (heap_of s') /\
+      (forall j, j < nxt (heap_of s) -> get (heap_of s') j = get (heap_of s) j) /\
+      Forall2 (Forall2 (g_doneF (heap_of s'))) idss bs /\
+      s_proc T s' = s_proc T s ++ idss.
+    Proof.
+      induction bs as [|b bs IH]; intros s Hi Ht Hne.
+      - exists s, []. cbn. rewrite !app_nil_r. repeat split; auto; try constructor.
+      - inversion Hne as [|x l Hb Hbs]; subst.
+        cbn [g_batches].
+        destruct (new_designs T (heap_of s) b) as [h1 ids] eqn:Enew.
+        destruct (g_batchF_spec s b h1 ids Hi Ht Enew Hb) as (s1 & E1 & Eids & BN & BO & BI & BT & BP & BD).
+        rewrite E1.
+        destruct (IH s1 BI BT Hbs) as (s' & idss2 & E2 & I2 & T2 & N2 & O2 & D2 & P2).
+        rewrite E2. exists s', (ids :: idss2).
+        repeat split.
+        + exact I2.
+        + exact T2.
+        + lia.
+        + intros j Hj. rewrite O2 by lia. apply BO. exact Hj.
+        + constructor; [|exact D2].
+          apply (Forall2_impl (g_doneF (heap_of s1))); [|exact BD].
+          intros id v _ (x & rd & H1 & H2). exists x, rd. split; [exact H1|].
+          apply (doneF_frame gcv g_fin (heap_of s1)); assumption.
+        + rewrite P2, BP, <- app_assoc. reflexivity.
+    Qed.
+
+    (* ---- what a finished design looks like under failures ---- *)
+    Lemma wc_fin_based x rd l ks : length (f x) = m ->
+      wc_fin (set_children T (based x rd) l) ks =
+      {| d_vec := x; d_costs := f x ++ [psum (map (fun k => abs (sub (c0 (f x)) k)) ks)];
+         d_signed := map SV (sgn (f x)) ++ [SV (psum (map (fun k => abs (sub (c0 (f x)) k)) ks)); SB (infeas x)];
+         d_state := EVALUATED; d_parents := []; d_children := l;
+         d_sens := Some (psum (map (fun k => abs (sub (c0 (f x)) k)) ks)); d_grad := None; d_fail := rd |}.
+    Proof.
+      intros Hm. unfold wc_fin, based. cbn [d_costs set_children evald set_eval d_signed d_vec fresh retried Evaluators.fresh].
+      rewrite Hm. assert (E : S m <=? m = false) by (apply Nat.leb_gt; lia). rewrite E.
+      unfold set_sens. cbn. rewrite insert_m1_snoc. reflexivity.
+    Qed.
+
+    Definition wc_fail_stmt (s : st) (idss : list (list nat)) (bs : list (list (list T))) : Prop :=
+      Forall2 (Forall2 (fun id v =>
+        let h := heap_of s in let d := get h id in let x := vec d in
+        let S := psum (map (fun c => abs (sub (c0 (f x)) (c0 (f (vec (get h c)))))) (kids d)) in
+        (d_fail T d = 0 -> x = v) /\ d_parents T d = [] /\ d_state T d = EVALUATED /\
+        NoDup (kids d) /\ length (kids d) = 2 * length x /\
+        (forall j, j < 2 * length x ->
+           let c := nth j (kids d) 0 in
+           (d_fail T (get h c) = 0 -> vec (get h c) = nth j (wcv x) []) /\
+           d_parents T (get h c) = [id] /\ kids (get h c) = [] /\ d_costs T (get h c) = f (vec (get h c)) /\
+           d_state T (get h c) = EVALUATED /\ c <> id) /\
+        d_costs T d = f x ++ [S] /\ length (d_costs T d) = m + 1 /\ d_sens T d = Some S /\
+        d_signed T d = map SV (sgn (f x)) ++ [SV S; SB (infeas x)] /\
+        (Forall (fun c => d_fail T (get h c) = 0) (kids d) ->
+           map (fun c => vec (get h c)) (kids d) = wcv x /\
+           S = psum (map (fun w => abs (sub (c0 (f x)) (c0 (f w)))) (wcv x))))) idss bs.
+
+    Theorem wc_failures_thm : (forall v, length (f v) = m) -> 1 <= m ->
+      forall bs s idss, wc_seqF init bs = (s, idss) ->
+      s_inds T s = [] /\ s_todo T s = [] /\ s_proc T s = idss /\ wc_fail_stmt s idss bs.
+    Proof.
+      intros Hf Hm bs s idss Hrun.
+      destruct (wc_batchesF_spec bs init eq_refl eq_refl _ _ Hrun) as (I1 & I2 & _ & _ & D & P).
+      split; [exact I1|]. split; [exact I2|]. split; [exact P|].
+      unfold wc_fail_stmt. apply (Forall2_impl (Forall2 (wc_doneF (heap_of s)))); [|exact D].
+      intros ids b _ Hb. apply (Forall2_impl (wc_doneF (heap_of s))); [|exact Hb].
+      intros id v _ (x & rd & H1 & lo & L1 & L2 & L3 & L4). cbn zeta.
+      rewrite wc_fin_based in L3 by apply Hf.
+      set (h := heap_of s) in *. rewrite L3. cbn [d_vec d_costs d_sens d_signed d_state d_children d_parents d_fail].
+      rewrite wcv_length in *.
+      assert (HK : forall c, In c (seq lo (2 * length x)) -> d_costs T (get h c) = f (vec (get h c))).
+      { intros c Hc. apply in_seq in Hc. destruct (L4 (c - lo)) as (w & r & A1 & _); [lia|].
+        replace (lo + (c - lo)) with c in A1 by lia. rewrite A1. reflexivity. }
+      assert (ES : psum (map (fun k => abs (sub (c0 (f x)) k)) (map (fun c => c0 (d_costs T (get h c))) (seq lo (2 * length x)))) =
+                   psum (map (fun c => abs (sub (c0 (f x)) (c0 (f (vec (get h c)))))) (seq lo (2 * length x)))).
+      { rewrite map_map. f_equal. apply map_ext_in. intros c Hc. rewrite (HK c Hc). reflexivity. }
+      rewrite ES.
+      split; [exact H1|]. split; [reflexivity|]. split; [reflexivity|]. split; [apply seq_NoDup|].
+      split; [apply seq_length|]. split.
+      { intros j Hj. rewrite seq_nth by exact Hj. destruct (L4 j Hj) as (w & r & A1 & A2). rewrite A1.
+        cbn. repeat split; try assumption. lia. }
+      split; [reflexivity|]. split; [rewrite app_length, Hf; cbn; lia|]. split; [reflexivity|]. split; [reflexivity|].
+      intros Hall.
+      assert (EV : map (fun c => vec (get h c)) (seq lo (2 * length x)) = wcv x).
+      { rewrite <- (wcv_length x). apply map_seq_nth with (d := []). intros k Hk. rewrite wcv_length in Hk.
+        destruct (L4 k Hk) as (w & r & A1 & A2). rewrite Forall_forall in Hall.
+        assert (Hr : d_fail T (get h (lo + k)) = 0) by (apply Hall; apply in_seq; lia).
+        rewrite A1 in Hr |- *. cbn in Hr |- *. apply A2. exact Hr. }
+      split; [exact EV|]. rewrite <- EV. rewrite map_map. reflexivity.
+    Qed.
+
+    Definition g_fail_stmt (s : st) (idss : list (list nat)) (bs : list (list (list T))) : Prop :=
+      Forall2 (Forall2 (fun id v =>
+        let h := heap_of s in let d := get h id in let x := vec d in
+        (d_fail T d = 0 -> x = v) /\ d_parents T d = [] /\ d_state T d = EVALUATED /\ d_costs T d = f x /\
+        NoDup (kids d) /\ length (kids d) = length x /\
+        (forall i, i < length x ->
+           let c := nth i (kids d) 0 in
+           (d_fail T (get h c) = 0 -> vec (get h c) = set_nth T i (add (nth i x zero) delta) x) /\
+           d_parents T (get h c) = [id] /\ d_costs T (get h c) = f (vec (get h c)) /\
+           d_state T (get h c) = EVALUATED /\ c <> id) /\
+        d_grad T d = Some (map (fun c => div (sub (c0 (f (vec (get h c)))) (c0 (f x))) delta) (kids d)) /\
+        (Forall (fun c => d_fail T (get h c) = 0) (kids d) ->
+           d_grad T d = Some (map (fun i => div (sub (c0 (f (set_nth T i (add (nth i x zero) delta) x))) (c0 (f x))) delta)
+                                  (seq 0 (length x)))))) idss bs.
+
+    Theorem g_failures_thm : forall bs, Forall (fun b => b <> []) bs ->
+      exists s idss, g_seqF init bs = Some (s, idss) /\
+      s_inds T s = [] /\ s_todo T s = [] /\ s_proc T s = idss /\ g_fail_stmt s idss bs.
+    Proof.
+      intros bs Hne.
+      destruct (g_batchesF_spec bs init eq_refl eq_refl Hne) as (s & idss & E & I1 & I2 & _ & _ & D & P).
+      exists s, idss. split; [exact E|]. split; [exact I1|]. split; [exact I2|]. split; [exact P|].
+      unfold g_fail_stmt. apply (Forall2_impl (Forall2 (g_doneF (heap_of s)))); [|exact D].
+      intros ids b _ Hb. apply (Forall2_impl (g_doneF (heap_of s))); [|exact Hb].
+      intros id v _ (x & rd & H1 & lo & L1 & L2 & L3 & L4). cbn zeta.
+      set (h := heap_of s) in *. rewrite L3. unfold g_fin, based.
+      cbn [d_vec d_costs d_state d_grad d_children d_parents d_fail set_grad set_children evald set_eval retried fresh Evaluators.fresh].
+      rewrite gcv_length in *.
+      assert (HK : forall c, In c (seq lo (length x)) -> d_costs T (get h c) = f (vec (get h c))).
+      { intros c Hc. apply in_seq in Hc. destruct (L4 (c - lo)) as (w & r & A1 & _); [lia|].
+        replace (lo + (c - lo)) with c in A1 by lia. rewrite A1. reflexivity. }
+      assert (EG : map (fun k => div (sub k (c0 (f x))) delta) (map (fun c => c0 (d_costs T (get h c))) (seq lo (length x))) =
+                   map (fun c => div (sub (c0 (f (vec (get h c)))) (c0 (f x))) delta) (seq lo (length x))).
+      { rewrite map_map. apply map_ext_in. intros c Hc. rewrite (HK c Hc). reflexivity. }
+      rewrite EG.
+      split; [exact H1|]. split; [reflexivity|]. split; [reflexivity|]. split; [reflexivity|].
+      split; [apply seq_NoDup|]. split; [apply seq_length|]. split.
+      { intros i Hi. rewrite seq_nth by exact Hi. destruct (L4 i Hi) as (w & r & A1 & A2). rewrite A1.
+        cbn. repeat split; try lia. intros Hr. rewrite (A2 Hr). apply gcv_nth. exact Hi. }
+      split; [reflexivity|].
+      intros Hall. f_equal.
+      assert (EV : map (fun c => vec (get h c)) (seq lo (length x)) = gcv x).
+      { rewrite <- (gcv_length x). apply map_seq_nth with (d := []). intros k Hk. rewrite gcv_length in Hk.
+        destruct (L4 k Hk) as (w & r & A1 & A2). rewrite Forall_forall in Hall.
+        assert (Hr : d_fail T (get h (lo + k)) = 0) by (apply Hall; apply in_seq; lia).
+        rewrite A1 in Hr |- *. cbn in Hr |- *. apply A2. exact Hr. }
+      rewrite <- (map_map (fun c => vec (get h c)) (fun w => div (sub (c0 (f w)) (c0 (f x))) delta)).
+      rewrite EV. unfold g_child_vecs. rewrite map_map. reflexivity.
+    Qed.
+  End Failures.
 End EvaluatorsProofs.
